@@ -27,6 +27,7 @@ DESC = {
  "shard-exposes-whole-files": "a shard provider returns parquet_files() (whole-file fast paths would see every row) on the listed inputs",
  "gathered-statement-does-not-bind": "on the gather path, re-running the statement over the gathered tables fails to bind/plan (Table/Column not found, unresolved alias, type error) where the single node answers, on the listed inputs",
  "cross-product-or-lost-input": "JoinReorder produced a cross join / lost an input or predicate on the listed inputs",
+ "sig:null-key-vs-minus-one": "NONDETERMINISTIC: the hash-aggregation paths encode a NULL integer group key as -1; with multi-batch / parallel partial-state merges the NULL group is sometimes folded into the -1 group (and DISTINCT likewise), so the same statement over the same data returns different rows from run to run. Recognised by input signature: a grouped or DISTINCT statement over data where an integer/date column holds both NULL and -1 (any configuration).",
  "hang": "statement did not finish within the deadline on the listed inputs",
 }
 DEVS = ["StrictBool", "InSubSkipsNull", "SetOpJoin", "DistinctKeepsNulls", "NullKeyGroupDropped"]
@@ -46,6 +47,7 @@ for f in sorted(glob.glob(os.path.join(ROOT, "findings", "sql", "*.json"))):
                     labs[part] = labs.get(part, 0) + 1
     for dv in SEEDED.get(pid, []):
         labs.setdefault("dev:" + dv, 0)
+    labs.setdefault("sig:null-key-vs-minus-one", 0)
     for lab, n in sorted(labs.items()):
         lines.append(json.dumps({"property": pid, "id": f"{pid}/{lab}", "status": "open", "auto_sql": True,
                                  "signature": f"{n} specific corpus inputs (case hash, configuration) in findings/sql/{pid}.json" +
